@@ -135,38 +135,35 @@ theorem idents_unique_ci (s : N) (h : NsInv s) (p : El) (hp : s.hasTbl p = true)
 theorem lookup_eq_scan_name (s : N) (h : NsInv s) (p : El) (kd : Kind) (v : String) :
     s.lookup p kd .name v = s.scan p kd .name v := by
   simp only [N.lookup]
-  split
-  · rename_i hp
-    simp only [N.scan, Rec.get]
+  cases hp : s.hasTbl p with
+  | false => simp
+  | true =>
+    simp only [if_true]
     cases hn : s.names p kd v with
+    | none => rfl
     | some e =>
+      simp only [N.scan, Rec.get]
       have := (h.names_iff p hp kd v e).1 hn
       symm
       apply find?_unique ((h.kids_iff p e).2 this.1) (by simp [this.2.1, this.2.2])
       intro a ha hq
       simp only [Bool.and_eq_true, decide_eq_true_eq, beq_iff_eq] at hq
       exact names_unique' h p hp a e v ((h.kids_iff p a).1 ha) this.1 (by rw [hq.1, this.2.1]) hq.2 this.2.2
-    | none =>
-      symm
-      rw [List.find?_eq_none]
-      intro a ha hq
-      simp only [Bool.and_eq_true, decide_eq_true_eq, beq_iff_eq] at hq
-      have := (h.names_iff p hp kd v a).2 ⟨(h.kids_iff p a).1 ha, hq.1, hq.2⟩
-      rw [hn] at this; cases this
-  · rfl
 
-/-- identifiers under the EDIF class: the (lower-cased) table lookup equals the case-insensitive scan;
-    under the DEFAULT class (not indexed) the lookup *is* the scan. -/
+/-- identifiers under the EDIF class: a child whose identifier equals the query ignoring case is found
+    (the lower-cased table answers, and a table miss falls through to the exact scan, which then misses
+    too); under the DEFAULT class (not indexed) the lookup *is* the scan. -/
 theorem lookup_eq_scan_ident (s : N) (h : NsInv s) (p : El) (kd : Kind) (v : String) :
     s.lookup p kd .ident v =
       (if s.hasTbl p = true ∧ s.tpol p = .edif then s.scanCI p kd v else s.scan p kd .ident v) := by
   simp only [N.lookup]
-  split
-  · rename_i hp
+  cases hp : s.hasTbl p with
+  | false => simp
+  | true =>
     cases hpol : s.tpol p with
-    | default => simp [hp]
+    | default => simp
     | edif =>
-      simp only [hp, true_and, if_true, N.scanCI]
+      simp only [if_true, true_and, N.scanCI]
       cases hn : s.idents p kd (lower v) with
       | some e =>
         have := (h.idents_iff p hp hpol kd (lower v) e).1 hn
@@ -176,14 +173,23 @@ theorem lookup_eq_scan_ident (s : N) (h : NsInv s) (p : El) (kd : Kind) (v : Str
         simp only [Bool.and_eq_true, decide_eq_true_eq, beq_iff_eq] at hq
         exact idents_unique' h p hp hpol a e (lower v) ((h.kids_iff p a).1 ha) this.1 (by rw [hq.1, this.2.1]) hq.2 this.2.2
       | none =>
-        symm
-        rw [List.find?_eq_none]
-        intro a ha hq
-        simp only [Bool.and_eq_true, decide_eq_true_eq, beq_iff_eq] at hq
-        have := (h.idents_iff p hp hpol kd (lower v) a).2 ⟨(h.kids_iff p a).1 ha, hq.1, hq.2⟩
-        rw [hn] at this; cases this
-  · rename_i hp
-    simp [hp]
+        simp only []
+        have hnone : ∀ a ∈ s.kids p, ¬ (a.kind = kd ∧ ((s.info a).ident).map lower = some (lower v)) := by
+          intro a ha hq
+          have := (h.idents_iff p hp hpol kd (lower v) a).2 ⟨(h.kids_iff p a).1 ha, hq.1, hq.2⟩
+          rw [hn] at this; cases this
+        have e1 : s.scan p kd .ident v = none := by
+          simp only [N.scan, Rec.get]
+          rw [List.find?_eq_none]
+          intro a ha hq
+          simp only [Bool.and_eq_true, decide_eq_true_eq, beq_iff_eq] at hq
+          exact hnone a ha ⟨hq.1, by simp [hq.2]⟩
+        have e2 : List.find? (fun c => decide (c.kind = kd) && Option.map lower (s.info c).ident == some (lower v)) (s.kids p) = none := by
+          rw [List.find?_eq_none]
+          intro a ha hq
+          simp only [Bool.and_eq_true, decide_eq_true_eq, beq_iff_eq] at hq
+          exact hnone a ha ⟨hq.1, hq.2⟩
+        rw [e1, e2]
 
 /-- "an edit is refused exactly when it would create a duplicate or an illegal identifier, never because
     of an element that was removed, renamed or un-named earlier": a rename is refused by the naming rules
